@@ -52,7 +52,7 @@ def run(ctx):
         for n in (98, 99, 100, 101, 102, 498, 499, 500, 501, 502):
             pairs += [(e, G.chain_doc(n).replace(" on A ", " on Query ").replace("{ a { ...F0 } }", "{ ...F0 }").replace("{ id }", "{ a }"))]
         pairs += [(e, G.chain_doc(3, cyclic=True).replace(" on A ", " on Query ").replace("{ a { ...F0 } }", "{ ...F0 }"))]
-    n_s, per = (50, 40) if quick else (500, 80)
+    n_s, per = (120, 50) if quick else (500, 80)
     # mostly valid documents, with directives at every location; then increasingly broken ones
     entries, gen = U.gen_pairs(ctx, impl, n_s, per, [0.0, 0.0, 0.0, 0.02, 0.05, 0.0, 0.12, 0.0], broken_share=0.05,
                                schemaless_share=0.2)
